@@ -190,11 +190,17 @@ def corr_activity(ck, n, thorough=False):
             ops = np.array(ws.ops)
             nacc = int(np.array(ws.abuf).shape[0])
             model = np.zeros((nacc, cs['sims']), dtype=np.int64)
+            areqs = []
             for s, m in enumerate(out):
                 cnts = [tuple(int(x) for x in t.split(',')) for t in m.split(' ; ')[1].split(' ') if t]
-                for row, (nr, nf) in zip(ops, cnts):
-                    a = int(row[6])
-                    if a >= 0: model[a, s] += cs['props'] * (nr * int(row[7]) + nf * int(row[8]))
+                # the accumulation itself is the Lean model Wave.accumulate (driver `accum`; C13.abuf_sum / abuf_order_independent), fed with the
+                # model's per-op counts and the real accumulation control columns, once per propagation
+                contribs = [f'{int(row[6])}:{nr}:{nf}:{int(row[7])}:{int(row[8])}' for row, (nr, nf) in zip(ops, cnts)] * cs['props']
+                areqs.append(f"accum {nacc} {','.join(contribs) or '-'}")
+            for s, a in enumerate(common.run_driver(areqs) if areqs else []):
+                vals = [int(v) for v in a.split(',') if v != '']
+                if len(vals) != nacc: raise RuntimeError('accum answer: ' + a[:120])
+                model[:, s] = vals
             got = np.array(ws.abuf)[:, :cs['sims']].astype(np.int64)
             if (ops[:, 6] >= 0).any() and not np.array_equal(got, model):
                 ck.broken_tie('abuf vs Lean waveCounts/accumulate', f'real {got.tolist()} != model {model.tolist()}', inp=cs)
@@ -206,7 +212,8 @@ def corr_activity(ck, n, thorough=False):
             ok, obs, exp, ovf = False, {'raised': f'{type(ex).__name__}: {ex}'[:300]}, None, False
         ck.case(key=('act', cs['circuit'][:60], cs['dseed'], cs['caps'], cs['cuda']), nontrivial=True,
                 sample={k: v for k, v in cs.items() if k not in ('circuit', 'a_ctrl')},
-                tag=['activity', f"cuda:{cs['cuda']}", f"caps:{cs['caps']}", f"strip:{cs.get('strip', False)}", f"props:{cs['props']}", 'overflow' if ovf else 'no-overflow', 'time:' + cs['time']])
+                tag=['activity', f"cuda:{cs['cuda']}", f"caps:{cs['caps']}", f"strip:{cs.get('strip', False)}", f"props:{cs['props']}", 'overflow' if ovf else 'no-overflow', 'time:' + cs['time'],
+                     common.allcirc_hyp(ck, pickle.loads(base64.b64decode(cs['circuit'])), [cs.get('strip', False)], 'C13')])   # hypotheses of capture_all_circuits
         if not ok:
             cls = 'mock-cuda-atomic' if (obs and 'atomic' in str(obs.get('raised', ''))) else 'activity'
             ck.violation(cls, 'capture / overflow indicator / accumulated activity does not match the waveforms', cs, obs, exp)
